@@ -445,6 +445,19 @@ func runC20Case(c *fw.Ctx, id string, cs c20Case) {
 	}
 	client := gohbase.VerifNewClient(cl.ZK(), gohbase.RegionDialer(trackingDialer(cl, dl, fault)), gohbase.Logger(dl.logger()),
 		gohbase.RpcQueueSize(cs.Queue), gohbase.FlushInterval(time.Millisecond), gohbase.RegionLookupTimeout(lookupTimeout), gohbase.RegionReadTimeout(3*time.Second))
+	// the construction of a connection object takes a moment (seeded, up to 3 ms)
+	// at the place where the client runs it - inside its connection cache - so
+	// that other first users and connection failures fall into that window
+	var nrMu sync.Mutex
+	nr := rand.New(rand.NewSource(cs.Seed ^ 0x9e3779b9))
+	gohbase.VerifOnNewRegionClient(client, func(addr string) {
+		nrMu.Lock()
+		d := nr.Intn(3000)
+		nrMu.Unlock()
+		if d > 500 {
+			time.Sleep(time.Duration(d) * time.Microsecond)
+		}
+	})
 	dl.client.Store(client)
 	defer func() { within(3*time.Second, client.Close) }()
 	var opn int32
